@@ -437,3 +437,63 @@ func LoopBlocks(p, h *ssa.BasicBlock) map[*ssa.BasicBlock]bool {
 	}
 	return body
 }
+
+// GuardedX is Guarded with extra assumptions (side conditions that are not
+// guards, e.g. "the block is not empty").
+func GuardedX(p *Prog, fn *ssa.Function, guards []*Guard, extra map[ssa.Value]Abs, isAction func(ssa.Instruction) bool, nonEmptyRange bool) GuardVerdict {
+	insts := findGuards(fn, guards)
+	var actions []ssa.Instruction
+	for _, b := range fn.Blocks {
+		for _, in := range b.Instrs {
+			if isAction(in) {
+				actions = append(actions, in)
+			}
+		}
+	}
+	v := GuardVerdict{Holds: true, GuardSites: len(insts), ActionSites: len(actions)}
+	if len(actions) == 0 {
+		return v
+	}
+	for _, as := range assumptions(insts) {
+		for k, val := range extra {
+			as[k] = val
+		}
+		q := &Query{Fn: fn, Assume: as, NonEmptyRange: nonEmptyRange}
+		r := q.Run()
+		for _, a := range actions {
+			if sts := r.StatesAt(a); len(sts) > 0 {
+				v.Holds = false
+				v.Action = a
+				v.Witness = r.Witness(p, sts[0])
+				return v
+			}
+		}
+	}
+	return v
+}
+
+// GuardBlocks returns the blocks that contain an instance of the guards.
+func GuardBlocks(fn *ssa.Function, guards []*Guard) map[*ssa.BasicBlock]bool {
+	out := map[*ssa.BasicBlock]bool{}
+	for _, gi := range findGuards(fn, guards) {
+		if gi.call != nil {
+			out[gi.call.Block()] = true
+		} else if in, ok := gi.value.(ssa.Instruction); ok {
+			out[in.Block()] = true
+		}
+	}
+	return out
+}
+
+// FindValues lists the SSA values in fn selected by match.
+func FindValues(fn *ssa.Function, match func(ssa.Value) bool) []ssa.Value {
+	var out []ssa.Value
+	for _, b := range fn.Blocks {
+		for _, in := range b.Instrs {
+			if v, ok := in.(ssa.Value); ok && match(v) {
+				out = append(out, v)
+			}
+		}
+	}
+	return out
+}
